@@ -45,6 +45,8 @@ class MustFlow:
         visit: Callable[[ast.AST, frozenset], None] = lambda n, s: None,
     ):
         self.gen, self.gen_cond, self.kill, self.visit = gen, gen_cond, kill, visit
+        # hook: state at the top of a for-loop body (bind the loop target); identity by default
+        self.loop_entry = lambda s, st: st
         self.exits: list[tuple[str, ast.AST, frozenset]] = []
 
     # ------------------------------------------------------------------
@@ -95,6 +97,8 @@ class MustFlow:
                 entry = head
                 if isinstance(s, ast.While):
                     entry = frozenset(head | frozenset(self.gen_cond(s.test, True)))
+                else:
+                    entry = self.loop_entry(s, head)
                 body_out = self.block(s.body, entry)
                 self._loops.pop()
                 back = body_out
